@@ -135,6 +135,14 @@ Theorem C14_import_unimported_submodule_hidden : forall mt ld m a attrs,
 Proof. exact mod_attr_not_imported. Qed.
 Print Assumptions C14_import_unimported_submodule_hidden.
 
+(** a later pyimport step re-binds a name an earlier one imported (dict.update: last wins), so every
+    !py after it — whatever the scope, by [C14_reads_imports_after_context] — sees the new object *)
+Theorem C14_pyimport_rebinds : forall k v stepns imports_before,
+  NoDup (ns_keys stepns) -> ns_get k stepns = Some v ->
+  ns_get k (ns_update imports_before stepns) = Some v.
+Proof. intros k v d c. exact (ns_get_update_in k v d c). Qed.
+Print Assumptions C14_pyimport_rebinds.
+
 (** * eval cannot leak (after the repair e6daded of Context.get_eval_string)
 
     For EVERY expression of the fragment — assignment expressions at module level, in lambdas, in
@@ -254,4 +262,18 @@ Example C14_import_nonvacuous :
         Ok (CList 1001 [CInt 40; CInt 40; CInt 40]) ]
       [("a", CInt 1); ("lst", CList 0 [CInt 1; CInt 2])]
       [("pkg", CMod "pkg"); ("m", CMod "pkg.sub.mod"); ("leaf", CMod "pkg.sub.mod"); ("Y", CInt 40)] []).
+Proof. vm_compute. reflexivity. Qed.
+
+(** two pyimport steps binding the same name to different objects, reads in between and after, at
+    module level, in a lambda and in a comprehension *)
+Example C14_pyimport_rebinds_nonvacuous :
+  session_case_ld pkg_mods std_builtins [] 1 h1 [("a", PInt 1); ("lst", PRef 0)]
+    [ AImport [SFrom "pkg.sub" "mod" "m"]; AEval (XAttr (N "m") "CONST");
+      AImport [SImportAs "pkg.other" "m"];
+      AEval (XAttr (N "m") "NAME"); AEval (XLam [] (XAttr (N "m") "NAME") []);
+      AEval (XComp (XAttr (N "m") "NAME") [("i", N "lst")]); AEval (XAttr (N "m") "CONST") ]
+  = Some (mk_obs
+      [ Ok (CInt 40); Ok (CStr "other"); Ok (CStr "other");
+        Ok (CList 1000 [CStr "other"; CStr "other"]); Err "AttributeError" "" ]
+      [("a", CInt 1); ("lst", CList 0 [CInt 1; CInt 2])] [("m", CMod "pkg.other")] []).
 Proof. vm_compute. reflexivity. Qed.
